@@ -39,6 +39,9 @@ func DecodeString(b []byte) (_ format.String, size int, err error) {
 	}
 	size += n + 1
 	end -= (n + 1) // null terminator
+	if end < 0 {
+		return "", 0, errors.New("decode string: invalid data")
+	}
 
 	// Data
 	data, err := decodeStringData(b[:end], dataSize)
